@@ -1,9 +1,13 @@
 /-
   C05 — snapshot reads are stable and identical across access paths.  The judge compares every recorded snapshot
   read (get / batch get / scan / reverse scan, cold and warm cache, any batch size, splits in between) with
-  `Perc.visible` of the model store; the model's own access paths are proved equal here.
+  `Perc.visible` of the model store; the model's own access paths are proved equal here, a scan is proved independent
+  of the region layout it is assembled over (any number of split points), and a served read is proved to stay the
+  snapshot at its timestamp in every later store state (`Proofs/MvccSI.lean`).
 -/
 import ClientGoVerif.Proofs.MvccStable
+import ClientGoVerif.Proofs.MvccScanSplit
+import ClientGoVerif.Proofs.MvccSI
 namespace CGV.Props.C05
 open CGV CGV.Mvcc
 
@@ -49,5 +53,28 @@ theorem read_stable (e : Entry) (acts : List Act) (ts : Nat)
       | .delWrite _ _ => False
       | _ => True) :
     firstVisible (acts.foldl entryAct e).writes ts = firstVisible e.writes ts := Mvcc.read_stable e acts ts h
+
+/-- a scan does not depend on the region layout: region by region over ANY chain of split points = the whole range -/
+theorem scan_independent_of_region_layout (s : Store) (a : Bytes) (ms : List Bytes) (b : Bytes) (limit ts : Nat)
+    (si : Bool) (rs : List Nat) (hs : KvSorted s.kv) (hc : ChainOK a ms b) (hl : s.kv.length ≤ limit) :
+    scanChain s a ms b limit ts si rs = scan s a b limit ts si rs :=
+  scanChain_eq_scan s a ms b limit ts si rs hs hc hl
+
+/-- with a limit: the first `limit` pairs of the two halves' concatenation -/
+theorem scan_split_with_limit (s : Store) (a m b : Bytes) (ts : Nat) (si : Bool) (rs : List Nat) (limit : Nat)
+    (hs : KvSorted s.kv) (ham : Bytes.le a m = true) (hmb : b.isEmpty = true ∨ Bytes.le m b = true) (hm : m.isEmpty = false) :
+    scan s a b limit ts si rs =
+      (((s.kv.filter fun p => inRange a m p.1).filterMap fun p => pairOf p.1 p.2 ts si rs) ++
+        ((s.kv.filter fun p => inRange m b p.1).filterMap fun p => pairOf p.1 p.2 ts si rs)).take limit :=
+  scan_split s a m b ts si rs limit hs ham hmb hm
+
+example : ChainOK [0x61] [[0x63], [0x66]] [] := by simp [ChainOK, Bytes.le, Bytes.cmp]
+
+/-- stable: once served, a read at `ts` is what every later state shows at `ts` (see Props/C01 for the guard) -/
+theorem snapshot_read_stable_every_run (ts : Nat) (k : Bytes) (s : Store) (cs : List Cmd) (v : Option Write)
+    (hs : SInv s) (hok : OkAll s cs) (hts : ts ≠ maxU64)
+    (hserved : getValue (getEntry s.kv k) k ts true [] = .ok v) (hg : SIGuardAll ts k [] s cs) :
+    firstVisible (getEntry (runAll s cs).kv k).writes ts = v :=
+  served_read_is_snapshot ts k s cs v hs hok hts hserved hg
 
 end CGV.Props.C05
